@@ -5,7 +5,7 @@ import time
 import z3
 from . import types as T
 from .types import V
-from .engine import Exec, State, Outcome, Unsupported, REG, Contract, Obligation, INT32_MIN, INT32_MAX
+from .engine import Exec, State, Outcome, Unsupported, REG, Contract, Obligation, INT32_MIN, INT32_MAX, alloc_axioms
 from . import source
 
 
@@ -121,6 +121,9 @@ def generate(c: Contract) -> Generated:
                               f"path raises {o.exc}, which the contract does not allow")
         g.outcomes = kinds
         g.obls = pre_obls + ex.obls
+        if ex.fresh_objs:
+            for o in g.obls:
+                o.hyps = o.hyps + alloc_axioms(o.hyps + [o.goal], ex.known_refs)
     except Unsupported as e:
         g.undecided.append(f"unsupported: {e}")
     except T.TypeErr as e:
